@@ -35,7 +35,7 @@ DIMS = [
     ('msg', ['plain', 'empty', 'multi', 'colon', 'dots', 'num', 'noted']),
     ('src', ['raise', 'call', 'helper', 'noraise', 'await', 'gen']),
     ('want', ['none', 'exact', 'stack', 'dotstack', 'wrongmsg', 'wrongtype', 'header', 'nontb', 'ellmsg', 'nameonly',
-              'indented', 'indented_wrongmsg', 'ell2over']),
+              'indented', 'indented_wrongmsg', 'ell2over', 'dotstack0', 'dotstack0_wrongmsg', 'dotstack0_wrongtype']),
     ('flags', [(), ('+IGNORE_EXCEPTION_DETAIL',), ('-ELLIPSIS',), ('+IGNORE_EXCEPTION_DETAIL', '-ELLIPSIS'),
                ('+IGNORE_WANT',)]),
     ('pos', ['only', 'middle', 'last']),
@@ -120,6 +120,12 @@ def build(cfg):
         w = [HDR, '  File "<stdin>", line 1, in <module>', '    foo()'] + excline_.split('\n')
     elif want == 'dotstack':
         w = [HDR, '    ...'] + excline_.split('\n')
+    elif want == 'dotstack0':         # the stack abbreviated by '...' written in the column of the header
+        w = [HDR, '...'] + excline_.split('\n')
+    elif want == 'dotstack0_wrongmsg':
+        w = [HDR, '...', tname + ': other text']
+    elif want == 'dotstack0_wrongtype':
+        w = [HDR, '...'] + ('Zork' + excline_).split('\n')
     elif want == 'indented':          # the whole block sits 4 columns right of the prompt (legal: only a dedent ends a want)
         w = [HDR] + excline_.split('\n')
     elif want in ('wrongmsg', 'indented_wrongmsg'):
@@ -162,14 +168,14 @@ def build(cfg):
     elif w is None or want in ('header', 'nontb'):
         exp = ('raised', etype)
     else:
-        wmsg = '\n'.join(w[1:] if want not in ('stack', 'dotstack') else w[(3 if want == 'stack' else 2):])
+        wmsg = '\n'.join(w[1:] if want not in ('stack', 'dotstack') and not want.startswith('dotstack0') else w[(3 if want == 'stack' else 2):])
         m = matchref.matches(excline, wmsg, fd)
         if not m and ied:
             g1 = excline_.split('\n')[0].split(':')[0].split('.')[-1]
             w1 = wmsg.split('\n')[0].split(':')[0].split('.')[-1]
             m = matchref.matches(g1, w1, fd)
         exp = ('pass',) if m else ('mismatch', etype)
-    if '+IGNORE_WANT' in fl and src != 'noraise' and want in ('wrongmsg', 'wrongtype', 'nameonly', 'ellmsg', 'indented_wrongmsg', 'ell2over'):
+    if '+IGNORE_WANT' in fl and src != 'noraise' and want in ('wrongmsg', 'wrongtype', 'nameonly', 'ellmsg', 'indented_wrongmsg', 'ell2over', 'dotstack0_wrongmsg', 'dotstack0_wrongtype'):
         exp = ('unspec',)       # DESIGN 3.1: IGNORE_WANT together with a wrong traceback
     return {'text': '\n'.join(lines), 'exp': exp, 'pre': pre, 'post': post, 'etype': etype}
 
